@@ -66,6 +66,7 @@ def _emit(ctx, buf, bstart, vs, by_sig, what_prefix):
             o = {"op": e["ev"]}
             if e["ev"] == "new":
                 o["kind"] = e["kind"]
+                o["items"] = [{"p": x[0], "t": x[1]} for x in e.get("items", [])]
             else:
                 o["q"] = e.get("q", 0)
                 if e["ev"] in ("push", "pop", "peek"):
@@ -100,13 +101,13 @@ def run(ctx):
 
     # 1. the design: exhaustive TLC run of both layers, repaired position of the switch
     mc = ctx.cfg("PQueue_mc.cfg", {"MaxOps": 5 if quick else 6})
-    r = ctx.tlc("PQueue", mc, timeout=900, coverage=quick)
+    r = ctx.tlc("PQueueMC", mc, timeout=900, coverage=quick)
     if r.violated or r.deadlock:
         raise vlib.NoVerdict("PQueue model violates %s with ShareOnReverse=FALSE: specification bug" % r.violated)
     ctx.cov["exhaustive"] = True
     # 2. sensitivity / vacuity: the shipped (aliasing) position must produce a counterexample
     sh = ctx.cfg("PQueue_mc.cfg", {"MaxOps": 5, "ShareOnReverse": "TRUE"})
-    r2 = ctx.tlc("PQueue", sh, timeout=300, name="PQueue-shared", count=False)
+    r2 = ctx.tlc("PQueueMC", sh, timeout=300, name="PQueue-shared", count=False)
     ctx.cov["binding_selftest"]["switch_ShareOnReverse_TRUE_gives_counterexample"] = bool(r2.violated)
     if not r2.violated:
         raise vlib.NoVerdict("vacuity guard failed: aliasing Reverse does not violate the model invariants")
